@@ -368,6 +368,11 @@ fn run_sized<P: Shape>(c: &Case, o: &mut Obs) {
             {
                 use arc_swap::RefCnt;
                 o.num("rc_as_ptr", cx.off(<Arc<P> as RefCnt>::as_ptr(&a)));
+                // `inc`: one more owner, handed out as the same raw pointer `as_ptr` / `into_ptr` give
+                let q = <Arc<P> as RefCnt>::inc(&a);
+                o.num("rc_inc", cx.off(q));
+                o.num("rc_inc_cnt", Arc::count(&a) as i128);
+                if q == <Arc<P> as RefCnt>::as_ptr(&a) { drop(unsafe { <Arc<P> as RefCnt>::from_ptr(q) }); }
                 let p = <Arc<P> as RefCnt>::into_ptr(a);
                 o.num("rc_into", cx.off(p));
                 let a2: Arc<P> = unsafe { <Arc<P> as RefCnt>::from_ptr(p) };
@@ -590,6 +595,10 @@ fn run_thin<H: Shape, T: Shape>(c: &Case, o: &mut Obs) {
             {
                 use arc_swap::RefCnt;
                 o.num("rc_as_ptr", cx.off(<ThinArc<H, T> as RefCnt>::as_ptr(&t)));
+                let q = <ThinArc<H, T> as RefCnt>::inc(&t);
+                o.num("rc_inc", cx.off(q));
+                o.num("rc_inc_cnt", ThinArc::strong_count(&t) as i128);
+                if q == <ThinArc<H, T> as RefCnt>::as_ptr(&t) { drop(unsafe { <ThinArc<H, T> as RefCnt>::from_ptr(q) }); }
                 let p = <ThinArc<H, T> as RefCnt>::into_ptr(t);
                 o.num("rc_into", cx.off(p));
                 let t2: ThinArc<H, T> = unsafe { <ThinArc<H, T> as RefCnt>::from_ptr(p) };
